@@ -317,6 +317,7 @@ Section Labelled.
     - repeat constructor; unfold RN, RC; simpl; lia.
     - apply regshape_quiet, regshape_construct.
     - apply regshape_quiet, regshape_unregister.
+    - destruct inlock; repeat constructor.
   Qed.
 
   Definition Qc (c : config) : Prop :=
@@ -612,6 +613,7 @@ Section Labelled.
     destruct o; try discriminate.
     - destruct locked, exsec; discriminate.
     - unfold compile_op, construct_prog, register_names_prog. destruct (ctor_prog mp nc); discriminate.
+    - destruct inlock; discriminate.
   Qed.
 
   Lemma own_step c t c' pd :
